@@ -487,6 +487,14 @@ theorem load_inv_all {src : Src} {n : Nat} {pfx : String} {a : Nat} {st : St} {a
     ⟨by rw [hss]; exact hx.seqKinds, by rw [hst, hss]; exact hx.strandKinds, by rw [hsu, hst]; exact hx.structBases⟩,
     by rw [hss]; exact hports⟩, by rw [hsp, hp], hnames⟩
 
+/-- the port items of a loaded component name entries of its table (no hypothesis on the source) -/
+theorem load_ports {src : Src} {n : Nat} {pfx : String} {a : Nat} {st : St} {a' : Nat}
+    (h : load src n pfx a = .ok (st, a')) : ∀ i ∈ st.inputSeqs ++ st.outputSeqs, PortItemOk st.seqs i := by
+  obtain ⟨s, hadd, hio⟩ := load_inv h
+  obtain ⟨⟨_, hss, _, _, _⟩, _⟩ := addIO_inv hio
+  rw [hss]
+  exact (addIO_ports hio).1
+
 theorem load_codes {tbl : CodeTable} {src : Src} {n : Nat} {pfx : String} {a : Nat} {st : St} {a' : Nat}
     (h : load src n pfx a = .ok (st, a')) (hn : StmtNamesOk src = true) (hc : CodesOk tbl src = true) :
     CodesInv tbl st := by
